@@ -282,3 +282,22 @@ chk('C15', 'exploration',
     'runtime monitoring: request histories vs a signature -> task reference '
     'dictionary + behavioural execution of every returned task',
     'DESIGN.md section 4 (C15)')
+chk('C11', 'fault_enumeration',
+    'Every shipped example listing (24) and two synthetic ones are cut at '
+    'byte offsets -- thorough: every byte offset of every listing (about 1.6 '
+    'million prefixes); quick: every offset of the listings <= 12 kB, and '
+    'for the larger ones every offset inside a sample of each kind of '
+    'scanner-interpreted line, every line boundary and a seeded sample -- '
+    'and opened with the real Parser; delivered editions are parsed with '
+    'parse_from_number. Observed per prefix: the exception class (only '
+    'ParserException allowed), a logical step budget counted with '
+    'sys.monitoring, and the deep digest of the responses of every parsed '
+    'edition against the same edition of the complete listing; memoised '
+    'editions are re-parsed later in another order and after failing parses, '
+    'and prefixes are repeated in a fresh process, to expose state carried '
+    'between parses.',
+    'batch_data / run_data (times and counters derived from the whole file) '
+    'may differ after a cut; hang = logical step budget; pyparsing trusted',
+    'runtime monitoring: exhaustive crash-point enumeration (every byte '
+    'offset) with exception-class, step-budget and edition-digest oracles',
+    'DESIGN.md section 4 (C11)')
